@@ -55,8 +55,12 @@ Definition ls_checks (c : lscase) : list nat :=
   let s := ls_start c in
   let w := start_flux s in
   let cw := dot (obj_coefs m) w in
-  (* model: does _add_cycle_free raise? *)
-  if cf_raises m w then (if ls_raised c then [] else [1%nat]) else
+  (* a vector of the wrong length cannot be looked up: the call raises *)
+  if negb (Nat.eqb (length w) (length (rxns m))) then (if ls_raised c then [] else [1%nat]) else
+  (* a starting vector that violates a bound of the model (cf_raises: the bounds _add_cycle_free would derive are
+     crossed) is outside the property; since the repair de6ebce the new bounds are kept ordered, so the call
+     must not raise ValueError for it -- nothing else is claimed about its result *)
+  if cf_raises m w then (if ls_raised c then [1%nat] else []) else
   if ls_raised c then [1%nat] else
   (* the exact oracle is only meaningful when the starting vector is exactly a flux distribution of
      the model; otherwise (float noise) the case was counted as ill-conditioned by the harness and
